@@ -45,11 +45,7 @@ impl NodeStamp {
 
     pub fn as_removed(&mut self) {
         debug_assert!(!self.is_removed());
-        self.0 = if self.0 < i16::MAX {
-            -self.0 - 1
-        } else {
-            -self.0
-        };
+        self.0 = -self.0 - 1;
     }
 
     pub fn reuseable(self) -> bool {
